@@ -67,7 +67,7 @@ func init() {
 		ID: "C05", Level: "fault_enumeration",
 		Technique: "fault enumeration at the decoder boundary: for every registered decoder key (read from the live registries through the verif hook) the product of payload / detail / message-type faults at five positions, then use of the decoded error through every public operation; plus byte-level wire fuzzing of valid encodings, kept when they unmarshal into a complete message",
 		Rule: "cases 0..K*P-1: one per (registered decoder key, payload fault) (K read at run time; also encoder-only keys and unknown keys): payload faults {absent, 19 messages of other / right type with full, partial or empty fields, unregistered Any, undecodable Any} x reportable-detail sets {none, one, two, one empty} x message type {0,1,7} (wrappers) x multi-cause count {0,2} (leaves) x positions {top, under a library wrapper, multi-cause branch, barrier payload, secondary payload} (quick tier: the four non-top positions only with the one-detail set). " +
-			"Remaining cases: wire fuzz — a valid encoding of a generated tree, 40 byte-level mutants each (bit flips, varint edits, truncation, duplication, splicing); mutants that unmarshal into a complete EncodedError are decoded and exercised. " +
+			"Remaining cases: every third one is a message-level fuzz (25 mutants of a valid encoding: a node's family name replaced by another registered key, payloads swapped / dropped, reportable strings added / removed, message type changed, branches grown / dropped, type keys swapped between nodes); the others are wire fuzz — a valid encoding of a generated tree, 40 byte-level mutants each (bit flips, varint edits, truncation, duplication, splicing); mutants that unmarshal into a complete EncodedError are decoded and exercised. " +
 			"Non-trivial = a (key, payload fault, detail set, message type, position) tuple or a kept mutant whose decoded tree differs from the unmutated one; distinct = distinct tuple / distinct mutant bytes.",
 		Cases: func(t string) int { return len(regKeys())*len(payloadFaults()) + tierN(600, 60000)(t) },
 		Floor: tierN(500, 5000),
@@ -247,7 +247,112 @@ func runC05(c *core.Ctx) {
 		sweepKey(c, keys[c.Case/len(pfs)], pfs[c.Case%len(pfs)])
 		return
 	}
+	if c.Case%3 == 0 {
+		structFuzzCase(c)
+		return
+	}
 	fuzzCase(c)
+}
+
+// structFuzzCase mutates a valid encoding at the message level: real
+// payloads meet decoders of other registered types at arbitrary positions
+// of real trees.
+func structFuzzCase(c *core.Ctx) {
+	g := gen.New(c.R)
+	t := g.Tree(2 + c.R.Intn(5))
+	coverTree(c, t)
+	var base errorspb.EncodedError
+	if p := core.Try(func() { base, _ = sim.Unmarshal(sim.EncBytes(gen.Build(t))) }); p != nil {
+		return
+	}
+	keys := regKeys()
+	r := c.R
+	for m := 0; m < 25; m++ {
+		enc, _ := sim.Unmarshal(sim.Marshal(base)) // deep copy
+		var ds []*errorspb.EncodedErrorDetails
+		var ws []*errorspb.EncodedWrapper
+		var ls []*errorspb.EncodedErrorLeaf
+		var walk func(e *errorspb.EncodedError)
+		walk = func(e *errorspb.EncodedError) {
+			if w := e.GetWrapper(); w != nil {
+				ds = append(ds, &w.Details)
+				ws = append(ws, w)
+				walk(&w.Cause)
+			} else if l := e.GetLeaf(); l != nil {
+				ds = append(ds, &l.Details)
+				ls = append(ls, l)
+				for _, x := range l.MultierrorCauses {
+					walk(x)
+				}
+			}
+		}
+		walk(&enc)
+		if len(ds) == 0 {
+			return
+		}
+		var what []string
+		for k, n := 0, 1+r.Intn(3); k < n; k++ {
+			d := ds[r.Intn(len(ds))]
+			switch r.Intn(8) {
+			case 0: // another registered type key meets this node's real payload
+				rk := keys[r.Intn(len(keys))]
+				d.ErrorTypeMark.FamilyName = rk.key
+				what = append(what, "family:="+famShort(rk.key))
+			case 1: // swap payloads between two nodes
+				o := ds[r.Intn(len(ds))]
+				d.FullDetails, o.FullDetails = o.FullDetails, d.FullDetails
+				what = append(what, "swap-payload")
+			case 2: // drop the payload
+				d.FullDetails = nil
+				what = append(what, "drop-payload")
+			case 3: // fewer / more reportable strings
+				if len(d.ReportablePayload) > 0 && r.Intn(2) == 0 {
+					d.ReportablePayload = d.ReportablePayload[:len(d.ReportablePayload)-1]
+					what = append(what, "fewer-details")
+				} else {
+					d.ReportablePayload = append(d.ReportablePayload, "extra")
+					what = append(what, "extra-detail")
+				}
+			case 4: // message type
+				if len(ws) > 0 {
+					ws[r.Intn(len(ws))].MessageType = errorspb.MessageType(r.Intn(9))
+					what = append(what, "message-type")
+				}
+			case 5: // a leaf grows causes / a multi-cause leaf loses them
+				if len(ls) > 0 {
+					l := ls[r.Intn(len(ls))]
+					if len(l.MultierrorCauses) > 0 && r.Intn(2) == 0 {
+						l.MultierrorCauses = l.MultierrorCauses[:len(l.MultierrorCauses)-1]
+						what = append(what, "drop-branch")
+					} else {
+						x := errors.EncodeError(sim.Ctx, goErr.New("grown"))
+						l.MultierrorCauses = append(l.MultierrorCauses, &x)
+						what = append(what, "grow-branch")
+					}
+				}
+			case 6: // empty strings everywhere in this node
+				d.OriginalTypeName = ""
+				d.ErrorTypeMark.Extension = "ext"
+				what = append(what, "empty-typename")
+			case 7: // swap type keys between two nodes (wrapper key on a leaf and vice versa)
+				o := ds[r.Intn(len(ds))]
+				d.ErrorTypeMark.FamilyName, o.ErrorTypeMark.FamilyName = o.ErrorTypeMark.FamilyName, d.ErrorTypeMark.FamilyName
+				what = append(what, "swap-family")
+			}
+		}
+		if !sim.Complete(&enc) {
+			continue
+		}
+		c.Count("struct-fuzz-kept", 1)
+		for _, w := range what {
+			c.Cover("struct-mutation", strings.SplitN(w, ":", 2)[0])
+		}
+		c.Nontrivial(fmt.Sprintf("sfuzz/%x", sim.Marshal(enc)))
+		decodeAndExercise(c, enc, "struct-fuzz", fmt.Sprintf("message-level mutations %v of the encoding of %s", what, t))
+	}
+	if c.Case%60 == 0 {
+		c.Sample(map[string]interface{}{"struct_fuzz_base_tree": t.String(), "mutants": 25})
+	}
 }
 
 func sweepKey(c *core.Ctx, rk regKey, pf payloadFault) {
